@@ -3,7 +3,7 @@
    the migrated value, or — an unknown variant outside every optional field — it fails with UnknownVariant. *)
 From MC Require Import Bytes BytesFacts Monad Cbor Utf8 Half Decoder Encoder EncoderFacts DecoderFacts IntFacts Types
   DeriveSchema DeriveEnc DeriveLen DeriveDec DeriveDoc DeriveKnown DeriveCompat DeriveMigrate
-  DeriveFacts DeriveLenFacts DeriveDocFacts DeriveInvFacts DeriveDecFacts DeriveCompatFacts DeriveReframeFacts DeriveClosed.
+  DeriveFacts DeriveLenFacts DeriveDocFacts DeriveInvFacts DeriveDecFacts DeriveCompatFacts DeriveReframeFacts DeriveClosed DeriveSkipFacts TypesEnc TypesFacts Denote.
 From Coq Require Import Lia Permutation.
 Local Open Scope N_scope.
 
@@ -25,6 +25,28 @@ Lemma omap_list_cons {A B} (f : A -> option B) x r :
   omap_list f (x :: r) = match f x, omap_list f r with Some y, Some ys => Some (y :: ys) | _, _ => None end.
 Proof. reflexivity. Qed.
 
+(* the nested values of a value satisfy okN (threaded through the decoders: the hypotheses about the writer's value — outside
+   class F14, text valid UTF-8 — are needed for the nested definitions' values too) *)
+Section OkN.
+Variable okN : nat -> value -> bool.
+Fixpoint ok_fty (f : fty) (v : value) {struct f} : bool :=
+  match f, v with
+  | FRef d, _ => okN d v
+  | FOpt f', VSome v' => ok_fty f' v'
+  | FSeq f', VList l => forallb (ok_fty f') l
+  | _, _ => true
+  end.
+Definition ok_raw (f : field) (v : value) : bool := match f_codec f with CoDefault => ok_fty (f_ty f) v | _ => true end.
+Definition ok_fields (fs : list field) (vs : list value) : Prop :=
+  forall pf, In pf (sorted_fields fs) -> ok_raw (pf_fld pf) (pf_val vs pf) = true.
+Definition ok_def (df : def) (v : value) : Prop :=
+  match df, v with
+  | DStruct _ _ _ _ fs, VList vs => ok_fields fs vs
+  | DEnum _ _ _ vars, VVar i (VList vs) => match find_variant vars i with Some va => ok_fields (v_fields va) vs | None => True end
+  | _, _ => True
+  end.
+End OkN.
+
 Section Mig2.
 Variable c : cfg.
 Variable okty : ty -> Prop.
@@ -35,7 +57,8 @@ Variable recE : nat -> value -> option (list chunk).     (* the writer's nested 
 Variable recD : nat -> nat -> M value.                    (* the reader's nested decoders *)
 Variable recM : nat -> value -> option value.             (* migrate of the nested definitions *)
 Variable ntr : nat -> bool.
-Hypothesis Hrec : forall d v cs, recE d v = Some cs ->
+Variable okN : nat -> value -> bool.
+Hypothesis Hrec : forall d v cs, recE d v = Some cs -> okN d v = true ->
   flat cs <> [] /\ (ntr d = true -> hd_class (flat cs) = true) /\ outcome (recD d) (flat cs) (recM d v).
 
 (* ---- sequences ---- *)
@@ -88,20 +111,20 @@ Qed.
 Lemma mig_fty_leaf t v : mig_fty recM (FTy t) v = Some v.
 Proof. destruct v; reflexivity. Qed.
 
-Lemma dec_fty_two f : forall v cs, fty_all okty f -> fty_rt ntr f = true -> enc_fty recE f v = Some cs ->
+Lemma dec_fty_two f : forall v cs, fty_all okty f -> fty_rt ntr f = true -> enc_fty recE f v = Some cs -> ok_fty okN f v = true ->
   flat cs <> [] /\ (hdok ntr f = true -> hd_class (flat cs) = true) /\ outcome (dec_fty c recD f) (flat cs) (mig_fty recM f v).
 Proof.
-  induction f as [t|d|f' IH|f' IH]; intros v cs Hall Hrt He.
+  induction f as [t|d|f' IH|f' IH]; intros v cs Hall Hrt He Hokv.
   - cbn in He, Hall. destruct (Hty t Hall v cs He) as [H1 H2]. split; [assumption|]. split; [discriminate|].
     rewrite mig_fty_leaf. exact H2.
-  - cbn in He. destruct (Hrec d v cs He) as (H1 & H2 & H3). split; [assumption|]. split; [exact H2|].
+  - cbn in He. assert (Hokd : okN d v = true) by (destruct v; exact Hokv). destruct (Hrec d v cs He Hokd) as (H1 & H2 & H3). split; [assumption|]. split; [exact H2|].
     replace (mig_fty recM (FRef d) v) with (recM d v) by (destruct v; reflexivity). exact H3.
   - apply fty_rt_hdok in Hrt as [Hhd Hrt']. destruct v; cbn in He; try discriminate.
     + injection He as <-. split; [discriminate|]. split; [discriminate|].
       intros fuel r p L _ _ _. cbn [dec_fty]. change (flat enc_null ++ r) with (246 :: r).
       rewrite (bind_ok _ _ _ _ _ (datatype_null _ _ _)). cbn [ctype_is_null].
       rewrite (bind_ok _ _ _ _ _ (skip_null _ _ _ _)). reflexivity.
-    + destruct (IH v cs Hall Hrt' He) as (H1 & H2 & H3). split; [assumption|]. split; [discriminate|]. specialize (H2 Hhd).
+    + destruct (IH v cs Hall Hrt' He Hokv) as (H1 & H2 & H3). split; [assumption|]. split; [discriminate|]. specialize (H2 Hhd).
       assert (Hdt : forall r p L, exists ty, datatype (mkdst p (flat cs ++ r) L) = (Ok ty, mkdst p (flat cs ++ r) L) /\ ctype_is_null ty = false).
       { intros r p L. destruct (flat cs) as [|x t] eqn:Ec; [congruence|]. cbn [app]. apply datatype_hd. destruct t; exact H2. }
       cbn [mig_fty]. destruct (mig_fty recM f' v) as [v'|]; cbn [option_map outcome] in *.
@@ -119,7 +142,7 @@ Proof.
        | None => forall r p L, (length (flat cv ++ r) < F)%nat -> L < two64 -> p + len (flat cv) <= L ->
                       exists n s', dec_fty c recD f' F (mkdst p (flat cv ++ r) L) = (Err (UnknownVariant n), s')
        end).
-    { intros F v cv Hv Hcv. destruct (IH v cv Hall Hrt Hcv) as (H1 & _ & H3). split; [assumption|].
+    { intros F v cv Hv Hcv. cbn [ok_fty] in Hokv. rewrite forallb_forall in Hokv. destruct (IH v cv Hall Hrt Hcv (Hokv v Hv)) as (H1 & _ & H3). split; [assumption|].
       destruct (mig_fty recM f' v); cbn [outcome] in H3.
       - intros r p L; apply H3.
       - intros r p L; apply H3. }
@@ -143,11 +166,11 @@ Qed.
 
 (* ---- one field ---- *)
 Lemma field_fn_two d f v z : field_ok d f = true -> f_skip f = false -> fty_all okty (f_ty f) -> fty_rt ntr (f_ty f) = true ->
-  enc_field_fn recE f v = Some z -> flat z <> [] /\ outcome (dec_field_fn c recD f) (flat z) (mig_raw recM f v).
+  enc_field_fn recE f v = Some z -> ok_raw okN f v = true -> flat z <> [] /\ outcome (dec_field_fn c recD f) (flat z) (mig_raw recM f v).
 Proof.
-  unfold enc_field_fn, dec_field_fn, mig_raw, field_ok. intros Hok Hs Hall Hrt He. rewrite Hs in Hok.
+  unfold enc_field_fn, dec_field_fn, mig_raw, field_ok, ok_raw. intros Hok Hs Hall Hrt He Hokv. rewrite Hs in Hok.
   destruct (f_codec f) eqn:Ec.
-  - destruct (dec_fty_two (f_ty f) v z Hall Hrt He) as (H1 & _ & H3). auto.
+  - destruct (dec_fty_two (f_ty f) v z Hall Hrt He Hokv) as (H1 & _ & H3). auto.
   - apply andb_prop in Hok as [_ Hok]. apply andb_prop in Hok as [_ Hok].
     destruct (f_ty f); try discriminate. cbn in *. now apply Hty.
   - apply cust_reads with (c := c) in He as [H1 H2]. auto.
@@ -170,10 +193,10 @@ Definition action_outcome (f : field) (v : value) (b : bytes) : Prop :=
   end.
 
 Lemma field_action_two d f v z : field_ok d f = true -> f_skip f = false -> fty_all okty (f_ty f) -> fty_rt ntr (f_ty f) = true ->
-  enc_field_fn recE f v = Some z -> skippable c (flat z) ->
+  enc_field_fn recE f v = Some z -> ok_raw okN f v = true -> skippable c (flat z) ->
   flat z <> [] /\ action_outcome f v (flat (enc_tag_opt (f_tag f) ++ z)).
 Proof.
-  intros Hok Hs Hall Hrt He Hsk. destruct (field_fn_two d f v z Hok Hs Hall Hrt He) as [Hne Hout]. split; [assumption|].
+  intros Hok Hs Hall Hrt He Hokv Hsk. destruct (field_fn_two d f v z Hok Hs Hall Hrt He Hokv) as [Hne Hout]. split; [assumption|].
   pose proof (fld_tag_ok d f Hok Hs) as Htag. unfold action_outcome.
   (* the null gate of a tagged optional field is not taken: what was written starts with the tag head *)
   assert (Hgate : forall (o : result (option value) * dst) fuel r p L,
@@ -411,20 +434,21 @@ Variable recE : nat -> value -> option (list chunk).
 Variable recD : nat -> nat -> M value.
 Variable recM : nat -> value -> option value.
 Variable ntr : nat -> bool.
-Hypothesis Hrec : forall d v cs, recE d v = Some cs ->
+Variable okN : nat -> value -> bool.
+Hypothesis Hrec : forall d v cs, recE d v = Some cs -> okN d v = true ->
   flat cs <> [] /\ (ntr d = true -> hd_class (flat cs) = true) /\ outcome (recD d) (flat cs) (recM d v).
 
 Theorem fields_two dW dR e sh fsW fsR vsW cs :
   fields_ok dW fsW = true -> fields_ok dR fsR = true ->
   fields_all okty fsR -> fields_rt ntr fsR = true ->
-  body_compat fsW fsR ->
+  body_compat fsW fsR -> ok_fields okN fsW vsW ->
   (* every item the writer wrote is skipped by skip() as one item, with and without its tag (C06 through C08) *)
   (forall pf z, In pf (sorted_fields fsW) -> enc_field_fn recE (pf_fld pf) (pf_val vsW pf) = Some z ->
      skippable c (flat z) /\ skippable c (flat (enc_tag_opt (f_tag (pf_fld pf)) ++ z))) ->
   enc_fields recE e fsW vsW = Some cs ->
   outcome (dec_body c recD e sh fsR) (flat cs) (option_map VList (mig_fields recM fsW vsW fsR)).
 Proof.
-  intros HokW HokR HallR HrtR [Hshared Hronly] Hsk He.
+  intros HokW HokR HallR HrtR [Hshared Hronly] HokV Hsk He.
   pose proof He as He'. unfold enc_fields in He'. destruct (Nat.eqb (length vsW) (length fsW)) eqn:El; [|discriminate]. apply Nat.eqb_eq in El.
   set (LW := sorted_fields fsW) in *. set (sR := sorted_fields fsR) in *. set (dl := decl fsW vsW).
   pose proof (sorted_fields_asc dW fsW HokW) as HascW. fold LW in HascW.
@@ -465,7 +489,9 @@ Proof.
     - apply find_field_in in Ef as [Hq Hqi]. destruct (HfR q Hq) as (HinR & H1 & H2 & H3 & H4).
       assert (Eer : eraseb (pf_fld pf) = eraseb (pf_fld q)) by (apply Hshared; auto).
       rewrite (enc_field_erase recE _ _ _ Eer) in Hz.
-      destruct (field_action_two c okty Hty recE recD recM ntr Hrec dR (pf_fld q) (pf_val vsW pf) z H1 H2 H3 H4 Hz Hskz) as [Hne Hact].
+      assert (Hokq : ok_raw okN (pf_fld q) (pf_val vsW pf) = true).
+      { pose proof (HokV pf Hpf) as Ho. unfold ok_raw in *. destruct (eraseb_proj _ _ Eer) as (_ & _ & <- & _ & <-). exact Ho. }
+      destruct (field_action_two c okty Hty recE recD recM ntr okN Hrec dR (pf_fld q) (pf_val vsW pf) z H1 H2 H3 H4 Hz Hokq Hskz) as [Hne Hact].
       destruct (eraseb_proj _ _ Eer) as (_ & -> & _). unfold action_outcome in Hact.
       assert (Hat : at_index dl (f_idx (pf_fld q)) = Some (fv vsW pf)).
       { replace (f_idx (pf_fld q)) with (pf_idx pf) by (symmetry; exact Hqi). now apply HsomeW. }
@@ -634,24 +660,6 @@ Qed.
 End Fields3.
 
 (* ---- a whole definition in two versions ---- *)
-Definition fields_skippable (c : cfg) (recE : nat -> value -> option (list chunk)) (fs : list field) (vs : list value) : Prop :=
-  forall pf z, In pf (sorted_fields fs) -> enc_field_fn recE (pf_fld pf) (pf_val vs pf) = Some z ->
-    skippable c (flat z) /\ skippable c (flat (enc_tag_opt (f_tag (pf_fld pf)) ++ z)).
-
-(* every item the writer's definition writes for a field (with and without the field's tag), and the body of a variant, is
-   skipped by skip() as one item *)
-Definition def_skippable (c : cfg) (recE : nat -> value -> option (list chunk)) (df : def) (v : value) : Prop :=
-  match df, v with
-  | DStruct _ _ _ _ fs, VList vs => fields_skippable c recE fs vs
-  | DEnum e _ _ vars, VVar i (VList vs) =>
-      match find_variant vars i with
-      | Some va => fields_skippable c recE (v_fields va) vs /\
-                   (forall cs, enc_fields recE (variant_encoding e va) (v_fields va) vs = Some cs -> skippable c (flat cs))
-      | None => True
-      end
-  | _, _ => True
-  end.
-
 Lemma enc_fields_hd recE e fs vs cs : enc_fields recE e fs vs = Some cs -> flat cs <> [] /\ hd_class (flat cs) = true.
 Proof.
   unfold enc_fields. destruct (Nat.eqb (length vs) (length fs)); [|discriminate]. destruct e.
@@ -672,7 +680,8 @@ Variable recE : nat -> value -> option (list chunk).
 Variable recD : nat -> nat -> M value.
 Variable recM : nat -> value -> option value.
 Variable ntr : nat -> bool.
-Hypothesis Hrec : forall d v cs, recE d v = Some cs ->
+Variable okN : nat -> value -> bool.
+Hypothesis Hrec : forall d v cs, recE d v = Some cs -> okN d v = true ->
   flat cs <> [] /\ (ntr d = true -> hd_class (flat cs) = true) /\ outcome (recD d) (flat cs) (recM d v).
 
 Lemma outcome_map {A B} (g : A -> B) (m : nat -> M A) (m' : nat -> M B) b o :
@@ -702,13 +711,13 @@ Proof. intros. now apply dec_tag_check_enc. Qed.
 
 Theorem def_two d dfW dfR v cs :
   def_ok d dfW = true -> def_ok d dfR = true -> def_all okty dfR -> def_rt_local ntr dfR = true ->
-  def_compat dfW dfR -> def_skippable c recE dfW v ->
+  def_compat dfW dfR -> ok_def okN dfW v -> def_skippable c recE dfW v ->
   enc_def recE dfW v = Some cs ->
   flat cs <> [] /\ (def_ntr dfR = true -> hd_class (flat cs) = true) /\ outcome (dec_def c recD dfR) (flat cs) (mig_def recM dfW dfR v).
 Proof.
-  intros HokW HokR Hall Hrt Hcomp Hsk He.
+  intros HokW HokR Hall Hrt Hcomp HokV Hsk He.
   destruct dfW as [eW tagW trW shW fsW|eW tagW ioW varsW], dfR as [eR tagR trR shR fsR|eR tagR ioR varsR]; try contradiction.
-  - destruct v as [| | | | | | | |vs|]; try discriminate. cbn [enc_def dec_def mig_def def_ok def_all def_rt_local def_ntr def_compat def_skippable] in *.
+  - destruct v as [| | | | | | | |vs|]; try discriminate. cbn [enc_def dec_def mig_def def_ok def_all def_rt_local def_ntr def_compat def_skippable ok_def] in *.
     destruct Hcomp as (<- & <- & Hcomp).
     apply andb_prop in HokW as [HokW HtrW]. apply andb_prop in HokW as [HokW _]. apply andb_prop in HokW as [HtagW HfsW].
     apply andb_prop in HokR as [HokR HtrR]. apply andb_prop in HokR as [HokR _]. apply andb_prop in HokR as [_ HfsR].
@@ -719,7 +728,11 @@ Proof.
       unfold fields_ok in HfsR. apply andb_prop in HfsR as [HfsR _]. cbn [forallb] in HfsR. apply andb_prop in HfsR as [Hf _].
       unfold fields_all in Hall. apply Forall_inv in Hall. unfold fields_rt in Hrt. cbn [forallb] in Hrt. apply andb_prop in Hrt as [Hrt _].
       cbn [pf_fld] in He. change (pf_val [x] (mkpf 0 fW)) with x in He. rewrite (enc_field_erase recE _ _ _ Eer) in He.
-      destruct (field_fn_two c okty Hty recE recD recM ntr Hrec d fR x cs Hf HtrR Hall Hrt He) as [Hne Hout].
+      assert (Hokx : ok_raw okN fR x = true).
+      { assert (Hin0 : In (mkpf 0 fW) (sorted_fields [fW])) by (unfold sorted_fields, active; cbn [with_pos filter pf_fld]; rewrite HtrW; cbn; now left).
+        pose proof (HokV _ Hin0) as Ho. unfold ok_raw in *. cbn [pf_fld] in Ho. change (pf_val [x] (mkpf 0 fW)) with x in Ho.
+        destruct (eraseb_proj _ _ Eer) as (_ & _ & <- & _ & <-). exact Ho. }
+      destruct (field_fn_two c okty Hty recE recD recM ntr okN Hrec d fR x cs Hf HtrR Hall Hrt He Hokx) as [Hne Hout].
       split; [assumption|]. split; [discriminate|]. cbn [pf_fld].
       apply (outcome_map (fun y => VList [y]) (dec_field_fn c recD fR)); [|exact Hout].
       intros fuel s. cbn [dec_def]. unfold sorted_fields, active. cbn [with_pos filter pf_fld]. rewrite HtrR. cbn [negb sort_by insert_by pf_fld]. reflexivity.
@@ -727,10 +740,10 @@ Proof.
       destruct (enc_fields_hd _ _ _ _ _ Hy) as [Hne Hhd].
       split; [now apply flat_tag_nonempty|]. split; [intros _; now apply hd_class_tagged|].
       rewrite Eenc in Hy.
-      pose proof (fields_two c okty Hty recE recD recM ntr Hrec d d (struct_encoding eR) shR fsW fsR vs y HfsW HfsR Hall Hrt Hbc Hsk Hy) as Hout.
+      pose proof (fields_two c okty Hty recE recD recM ntr okN Hrec d d (struct_encoding eR) shR fsW fsR vs y HfsW HfsR Hall Hrt Hbc HokV Hsk Hy) as Hout.
       apply (outcome_prefix (dec_tag_check tagW) (dec_body c recD (struct_encoding eR) shR fsR)); [intros; reflexivity| |exact Hout].
       intros r p L Hp. now apply tag_prefix.
-  - destruct v as [| | | | | | | | |i [| | | | | | | |vs|]]; try discriminate. cbn [enc_def dec_def mig_def def_ok def_all def_rt_local def_ntr def_compat def_skippable] in *.
+  - destruct v as [| | | | | | | | |i [| | | | | | | |vs|]]; try discriminate. cbn [enc_def dec_def mig_def def_ok def_all def_rt_local def_ntr def_compat def_skippable ok_def] in *.
     destruct Hcomp as (<- & <- & Hcomp).
     destruct (find_variant varsW i) as [vaW|] eqn:EfW; [|discriminate].
     pose proof (find_variant_in _ _ _ EfW) as [HinW HiW].
@@ -828,7 +841,7 @@ Proof.
             - exists bd. split; [now rewrite <- Eenc|reflexivity]. }
           destruct Hbody as (bd' & Hbd' & Ebd).
           assert (Hskf : fields_skippable c recE (v_fields vaW) vs) by (apply Hsk).
-          pose proof (fields_two c okty Hty recE recD recM ntr Hrec d d (variant_encoding eR vaR) (v_shape vaR) (v_fields vaW) (v_fields vaR) vs bd' HfsW HfsR Hall Hrt Hbc Hskf Hbd') as Hout.
+          pose proof (fields_two c okty Hty recE recD recM ntr okN Hrec d d (variant_encoding eR vaR) (v_shape vaR) (v_fields vaW) (v_fields vaR) vs bd' HfsW HfsR Hall Hrt Hbc HokV Hskf Hbd') as Hout.
           rewrite Ebd in Hout. rewrite flat_app.
           assert (Hout2 : outcome (fun fuel => dec_tag_check (v_tag vaR) ;;; v0 <- dec_body c recD (variant_encoding eR vaR) (v_shape vaR) (v_fields vaR) fuel ;; ret (VVar i v0))
                             (flat (enc_tag_opt (v_tag vaW)) ++ flat bd) (option_map (fun l => VVar i (VList l)) (mig_fields recM (v_fields vaW) vs (v_fields vaR)))).
@@ -855,12 +868,46 @@ Qed.
 End Def3.
 
 (* ---- whole schemas ---- *)
-(* what the theorem assumes about skip(): every item the writer's schema writes for a field (with and without the field's tag)
-   and every variant body is skipped as one item.  This is C06 (skip consumes exactly one well-formed item) applied to the
-   well-formed tree C08_format provides for these bytes — C10_skippable / C10_skippable_full discharge it item by item. *)
-Definition writer_skippable (c : cfg) (ScW : schema) : Prop :=
-  forall k d dfW v, nth_error ScW d = Some dfW ->
-    def_skippable c (fun d' v' => if Nat.ltb d' d then gen_encode_f k ScW d' v' else None) dfW v.
+Section OkOf.
+Variable recK : nat -> value -> bool.
+Variable recT : nat -> value -> bool.
+Let okN := fun d v => negb (recK d v) && recT d v.
+
+Lemma ok_fty_of f : forall v, known_fty recK f v = false -> text_fty recT f v = true -> ok_fty okN f v = true.
+Proof.
+  induction f as [t|d|g IH|g IH]; intros v Hk Ht.
+  - destruct v; reflexivity.
+  - assert (E : ok_fty okN (FRef d) v = okN d v) by (destruct v; reflexivity). rewrite E. unfold okN.
+    assert (Ek : known_fty recK (FRef d) v = recK d v) by (destruct v; reflexivity). assert (Et : text_fty recT (FRef d) v = recT d v) by (destruct v; reflexivity).
+    rewrite Ek in Hk. rewrite Et in Ht. now rewrite Hk, Ht.
+  - destruct v; try reflexivity. cbn in *. now apply IH.
+  - destruct v; try reflexivity. cbn [known_fty text_fty ok_fty] in *. apply forallb_forall. intros x Hx. rewrite forallb_forall in Ht.
+    apply IH; [|now apply Ht]. destruct (known_fty recK g x) eqn:E; [|reflexivity]. assert (existsb (known_fty recK g) l = true); [|congruence]. apply existsb_exists. eauto.
+Qed.
+
+Lemma ok_fields_of fs vs : existsb (known_field recK vs) (sorted_fields fs) = false -> forallb (text_field recT vs) (sorted_fields fs) = true ->
+  ok_fields okN fs vs.
+Proof.
+  intros Hk Ht pf Hpf. rewrite forallb_forall in Ht. specialize (Ht pf Hpf).
+  assert (Hkf : known_field recK vs pf = false).
+  { destruct (known_field recK vs pf) eqn:E; [|reflexivity]. assert (existsb (known_field recK vs) (sorted_fields fs) = true); [|congruence]. apply existsb_exists. eauto. }
+  unfold ok_raw, known_field, text_field in *. destruct (f_codec (pf_fld pf)); try reflexivity. now apply ok_fty_of.
+Qed.
+
+Lemma ok_def_of d df v : def_ok d df = true -> known_def fmt_group recK df v = false -> text_def recT df v = true -> ok_def okN df v.
+Proof.
+  destruct df as [e tag tr sh fs|e tag io vars]; destruct v as [| | | | | | | |vs|i [| | | | | | | |vs|]]; try (intros; exact I);
+    cbn [def_ok known_def text_def ok_def]; intros Hok Hk Ht.
+  - apply ok_fields_of; [|exact Ht]. destruct tr; [exact Hk|]. unfold known_fields in Hk. now apply orb_false_iff in Hk as [_ Hk].
+  - destruct (find_variant vars i) as [va|] eqn:Ef; [|exact I]. apply find_variant_in in Ef as [Hin Hi].
+    apply andb_prop in Hok as [Hok _]. apply andb_prop in Hok as [_ Hvs]. rewrite forallb_forall in Hvs. specialize (Hvs va Hin).
+    unfold variant_ok in Hvs. apply andb_prop in Hvs as [_ Hsh].
+    destruct (is_unit (v_shape va)) eqn:Eu.
+    + destruct (v_fields va); [|discriminate]. intros pf [].
+    + assert (Hio : io = false) by (destruct io; [discriminate|reflexivity]). subst io. cbn [orb] in Hk.
+      apply ok_fields_of; [|exact Ht]. unfold known_fields in Hk. now apply orb_false_iff in Hk as [_ Hk].
+Qed.
+End OkOf.
 
 Section Top3.
 Variable c : cfg.
@@ -868,46 +915,53 @@ Variable okty : ty -> Prop.
 Hypothesis Hty : forall t, okty t -> forall v cs, encode_ty t v = Some cs ->
   flat cs <> [] /\ reads_f (decode_ty c t) (flat cs) v.
 
-Lemma migrate_f_two ScW ScR : schema_ok ScW = true -> schema_ok ScR = true -> schema_all okty ScR -> schema_rt ScR = true ->
-  schema_compat ScW ScR -> writer_skippable c ScW ->
-  forall k d v cs, gen_encode_f k ScW d v = Some cs ->
+Lemma migrate_f_two ScW ScR : schema_ok ScW = true -> schema_all leaf_ok ScW -> schema_ok ScR = true -> schema_all okty ScR -> schema_rt ScR = true ->
+  schema_compat ScW ScR ->
+  forall k d v cs, gen_encode_f k ScW d v = Some cs -> known_f fmt_group k ScW d v = false -> text_f k ScW d v = true ->
   flat cs <> [] /\ (non_transparent ScR d = true -> hd_class (flat cs) = true) /\
   outcome (gen_decode_f k c ScR d) (flat cs) (migrate_f k ScW ScR d v).
 Proof.
-  intros HokW HokR Hall Hrt Hcomp Hsk. induction k as [|k IH]; intros d v cs; [cbn [gen_encode_f]; discriminate|]. cbn [gen_encode_f gen_decode_f migrate_f].
-  destruct (nth_error ScW d) as [dfW|] eqn:EnW; [|discriminate]. intro He.
+  intros HokW HallW HokR Hall Hrt Hcomp. induction k as [|k IH]; intros d v cs; [cbn [gen_encode_f]; discriminate|].
+  intros He Hk Ht. pose proof (fun df En => schema_skippable c ScW HokW HallW k d df v En Hk Ht) as Hsk.
+  cbn [gen_encode_f gen_decode_f migrate_f known_f text_f] in *.
+  destruct (nth_error ScW d) as [dfW|] eqn:EnW; [|discriminate].
   destruct (Hcomp d dfW EnW) as (dfR & EnR & Hdc). unfold non_transparent. rewrite EnR.
   assert (Hrt' : def_rt_local (non_transparent ScR) dfR = true).
   { unfold schema_rt in Hrt. rewrite forallb_forall in Hrt. specialize (Hrt dfR (nth_error_In _ _ EnR)). exact Hrt. }
+  set (recK := fun d' v' => if Nat.ltb d' d then known_f fmt_group k ScW d' v' else false) in *.
+  set (recT := fun d' v' => if Nat.ltb d' d then text_f k ScW d' v' else true) in *.
   destruct (def_two c okty Hty
               (fun d' v' => if Nat.ltb d' d then gen_encode_f k ScW d' v' else None)
               (fun d' fl => if Nat.ltb d' d then gen_decode_f k c ScR d' fl else out_of_fuel)
               (fun d' v' => if Nat.ltb d' d then migrate_f k ScW ScR d' v' else None)
-              (non_transparent ScR)) with (d := d) (dfW := dfW) (dfR := dfR) (v := v) (cs := cs) as (H1 & H2 & H3).
-  - intros d' v' cs'. destruct (Nat.ltb d' d); [apply IH|discriminate].
+              (non_transparent ScR)
+              (fun d' v' => negb (recK d' v') && recT d' v')) with (d := d) (dfW := dfW) (dfR := dfR) (v := v) (cs := cs) as (H1 & H2 & H3).
+  - intros d' v' cs' He' Hokv. unfold recK, recT in Hokv. destruct (Nat.ltb d' d); [|discriminate].
+    apply andb_prop in Hokv as [Hk' Ht']. apply negb_true_iff in Hk'. now apply IH.
   - exact (schema_ok_nth ScW d dfW HokW EnW).
   - exact (schema_ok_nth ScR d dfR HokR EnR).
   - eapply schema_all_nth; eassumption.
   - exact Hrt'.
   - exact Hdc.
-  - apply Hsk. exact EnW.
+  - exact (ok_def_of recK recT d dfW v (schema_ok_nth ScW d dfW HokW EnW) Hk Ht).
+  - exact (Hsk dfW eq_refl).
   - exact He.
   - split; [assumption|]. split; [|exact H3]. intro Hn. apply H2. destruct dfR; exact Hn.
 Qed.
 
-(* C10 at schema level: every value the writer's schema encodes is read by the reader's schema as the migrated value, stopping
-   exactly at the end of the encoding — or, when it contains a variant the reader does not know outside every optional field,
-   is refused with UnknownVariant. *)
-Theorem compat_roundtrip ScW ScR d v cs rest : schema_ok ScW = true -> schema_ok ScR = true -> schema_all okty ScR -> schema_rt ScR = true ->
-  schema_compat ScW ScR -> writer_skippable c ScW ->
+(* C10 at schema level: every value the writer's schema encodes (text valid UTF-8, outside class F14) is read by the reader's schema as
+   the migrated value, stopping exactly at the end of the encoding — or, when it contains a variant the reader does not know outside
+   every optional field, is refused with UnknownVariant. *)
+Theorem compat_roundtrip ScW ScR d v cs rest : schema_ok ScW = true -> schema_all leaf_ok ScW -> schema_ok ScR = true -> schema_all okty ScR -> schema_rt ScR = true ->
+  schema_compat ScW ScR -> writer_value_ok ScW d v = true ->
   gen_encode ScW d v = Some cs -> len (flat cs ++ rest) < two64 ->
   match migrate ScW ScR d v with
   | Some v' => gen_decode c ScR d (start (flat cs ++ rest)) = (Ok v', mkdst (len (flat cs)) rest (len (flat cs ++ rest)))
   | None => exists n s', gen_decode c ScR d (start (flat cs ++ rest)) = (Err (UnknownVariant n), s')
   end.
 Proof.
-  intros HokW HokR Hall Hrt Hcomp Hsk He Hb.
-  destruct (migrate_f_two ScW ScR HokW HokR Hall Hrt Hcomp Hsk (S d) d v cs He) as (_ & _ & Hout).
+  intros HokW HallW HokR Hall Hrt Hcomp Hv He Hb. unfold writer_value_ok in Hv. apply andb_prop in Hv as [Hk Ht]. apply negb_true_iff in Hk.
+  destruct (migrate_f_two ScW ScR HokW HallW HokR Hall Hrt Hcomp (S d) d v cs He Hk Ht) as (_ & _ & Hout).
   unfold migrate, gen_decode, start, fuel_of. cbn [drest].
   destruct (migrate_f (S d) ScW ScR d v) as [v'|]; cbn [outcome] in Hout.
   - rewrite Hout; [reflexivity|lia|assumption|rewrite len_app; lia].
@@ -915,18 +969,15 @@ Proof.
 Qed.
 End Top3.
 
-(* … with the leaf-type hypothesis discharged by C01_roundtrip *)
-Theorem compat_roundtrip_closed c ScW ScR d v cs rest : schema_ok ScW = true -> schema_ok ScR = true -> schema_all leaf_ok ScR -> schema_rt ScR = true ->
-  schema_compat ScW ScR -> writer_skippable c ScW ->
+(* … with the reader's leaf-type hypothesis discharged by C01_roundtrip *)
+Theorem compat_roundtrip_closed c ScW ScR d v cs rest : schema_ok ScW = true -> schema_all leaf_ok ScW -> schema_ok ScR = true -> schema_all leaf_ok ScR -> schema_rt ScR = true ->
+  schema_compat ScW ScR -> writer_value_ok ScW d v = true ->
   gen_encode ScW d v = Some cs -> len (flat cs ++ rest) < two64 ->
   match migrate ScW ScR d v with
   | Some v' => gen_decode c ScR d (start (flat cs ++ rest)) = (Ok v', mkdst (len (flat cs)) rest (len (flat cs ++ rest)))
   | None => exists n s', gen_decode c ScR d (start (flat cs ++ rest)) = (Err (UnknownVariant n), s')
   end.
 Proof. exact (compat_roundtrip c leaf_ok (leaf_reads c) ScW ScR d v cs rest). Qed.
-
-(* schema_compat is reflexive on accepted schemas whose optional … (not needed); the migrated value of a schema read by itself is
-   default_skipped when no variant is unknown — sanity on an instance in Props/C10.v *)
 
 Lemma body_compat_refl fs : (forall f g, In f fs -> In g fs -> f_skip f = false -> f_skip g = false -> f_idx f = f_idx g -> f = g) -> body_compat fs fs.
 Proof.
@@ -961,4 +1012,87 @@ Proof.
       destruct (0 =? i) eqn:E0; [|discriminate]. injection HR as <-. injection HW as <-. left. split; reflexivity.
     + eexists. split; [reflexivity|exact Hholder].
   - vm_compute. repeat split.
+Qed.
+
+(* ---- the hypotheses of compat_roundtrip_closed on concrete pairs of schemas, and what it then says ---- *)
+Lemma leaf_ok_all Sc : forallb (fun df => match df with
+                                          | DStruct _ _ _ _ fs => forallb (fun f => match f_ty f with FTy t => TypesEnc.ty_ok t && TypesFacts.rt_ok t && Denote.no_bare_tag t | _ => true end) fs
+                                          | DEnum _ _ _ vs => forallb (fun va => forallb (fun f => match f_ty f with FTy t => TypesEnc.ty_ok t && TypesFacts.rt_ok t && Denote.no_bare_tag t | _ => true end) (v_fields va)) vs
+                                          end) Sc = true ->
+  (forall df, In df Sc -> match df with DStruct _ _ _ _ fs => forall f, In f fs -> match f_ty f with FOpt (FRef _) | FRef _ | FTy _ | FSeq (FRef _) => True | _ => False end
+                                   | DEnum _ _ _ vs => forall va f, In va vs -> In f (v_fields va) -> match f_ty f with FOpt (FRef _) | FRef _ | FTy _ | FSeq (FRef _) => True | _ => False end end) ->
+  schema_all leaf_ok Sc.
+Proof.
+  intros H Hshape. unfold schema_all. apply Forall_forall. intros df Hdf. rewrite forallb_forall in H. specialize (H df Hdf). specialize (Hshape df Hdf).
+  assert (Hf : forall f, match f_ty f with FTy t => TypesEnc.ty_ok t && TypesFacts.rt_ok t && Denote.no_bare_tag t | _ => true end = true ->
+                 match f_ty f with FOpt (FRef _) | FRef _ | FTy _ | FSeq (FRef _) => True | _ => False end -> fty_all leaf_ok (f_ty f)).
+  { intros f H1 H2. destruct (f_ty f) as [t|d|[| | |]|[| | |]]; cbn [fty_all]; try exact I; try contradiction.
+    apply andb_prop in H1 as [H1 H3]. apply andb_prop in H1 as [H1 H4]. repeat split; assumption. }
+  destruct df; cbn [def_all].
+  - unfold fields_all. apply Forall_forall. intros f Hin. rewrite forallb_forall in H. apply Hf; [now apply H|now apply Hshape].
+  - apply Forall_forall. intros va Hva. unfold fields_all. apply Forall_forall. intros f Hin. rewrite forallb_forall in H. specialize (H va Hva).
+    rewrite forallb_forall in H. apply Hf; [now apply H|now apply (Hshape va f)].
+Qed.
+
+Lemma rg_compat_instance :
+  let v := VList [VNat 1; VSome (VVar 7 (VList [VNat 5])); VNat 9] in
+  schema_ok rg_writer = true /\ schema_all leaf_ok rg_writer /\ schema_ok rg_reader = true /\ schema_all leaf_ok rg_reader /\
+  schema_rt rg_reader = true /\ schema_compat rg_writer rg_reader /\ writer_value_ok rg_writer 1 v = true /\
+  forall c rest, len ([131; 1; 130; 7; 129; 5; 9] ++ rest) < two64 ->
+    gen_decode c rg_reader 1 (start ([131; 1; 130; 7; 129; 5; 9] ++ rest))
+    = (Ok (VList [VNat 1; VNone; VNat 9]), mkdst 7 rest (len ([131; 1; 130; 7; 129; 5; 9] ++ rest))).
+Proof.
+  intro v.
+  assert (HW : schema_all leaf_ok rg_writer).
+  { apply leaf_ok_all; [vm_compute; reflexivity|]. intros df Hdf. cbn in Hdf. destruct Hdf as [<-|[<-|[]]]; cbn.
+    - intros va f [<-|[<-|[]]]; cbn; [intros []|intros [<-|[]]; exact I].
+    - intros f [<-|[<-|[<-|[]]]]; exact I. }
+  assert (HR : schema_all leaf_ok rg_reader).
+  { apply leaf_ok_all; [vm_compute; reflexivity|]. intros df Hdf. cbn in Hdf. destruct Hdf as [<-|[<-|[]]]; cbn.
+    - intros va f [<-|[]]; cbn; intros [].
+    - intros f [<-|[<-|[<-|[]]]]; exact I. }
+  destruct rg_schema_compat as (Hc & _).
+  split; [vm_compute; reflexivity|]. split; [exact HW|]. split; [vm_compute; reflexivity|]. split; [exact HR|].
+  split; [vm_compute; reflexivity|]. split; [exact Hc|]. split; [vm_compute; reflexivity|].
+  intros c rest Hb.
+  destruct (gen_encode rg_writer 1 v) as [cs|] eqn:E; [|vm_compute in E; discriminate]. vm_compute in E. injection E as <-.
+  pose proof (compat_roundtrip_closed c rg_writer rg_reader 1 v _ rest eq_refl HW eq_refl HR eq_refl Hc eq_refl eq_refl) as H.
+  change (migrate rg_writer rg_reader 1 v) with (Some (VList [VNat 1; VNone; VNat 9])) in H. cbv iota in H.
+  exact (H Hb).
+Qed.
+
+Lemma f10_compat_instance :
+  schema_ok f10_writer = true /\ schema_all leaf_ok f10_writer /\ schema_ok f10_reader = true /\ schema_all leaf_ok f10_reader /\
+  schema_rt f10_reader = true /\ schema_compat f10_writer f10_reader /\ schema_compat f10_reader f10_writer /\
+  writer_value_ok f10_writer 0 (VList [VNat 1; VNat 3]) = true /\
+  forall c rest, len ([131; 1; 246; 3] ++ rest) < two64 ->
+    gen_decode c f10_reader 0 (start ([131; 1; 246; 3] ++ rest))
+    = (Ok (VList [VNat 1; VNone; VNat 3]), mkdst 4 rest (len ([131; 1; 246; 3] ++ rest))).
+Proof.
+  assert (HW : schema_all leaf_ok f10_writer).
+  { apply leaf_ok_all; [vm_compute; reflexivity|]. intros df [<-|[]]; cbn. intros f [<-|[<-|[]]]; exact I. }
+  assert (HR : schema_all leaf_ok f10_reader).
+  { apply leaf_ok_all; [vm_compute; reflexivity|]. intros df [<-|[]]; cbn. intros f [<-|[<-|[<-|[]]]]; exact I. }
+  assert (Hc : schema_compat f10_writer f10_reader).
+  { intros d dW H. destruct d as [|d]; cbn in H; [|destruct d; discriminate]. injection H as <-. eexists. split; [reflexivity|].
+    cbn. split; [reflexivity|]. split; [reflexivity|]. split; [reflexivity|]. split.
+    - intros fW fR HfW HfR _ _ E. cbn [In] in HfW, HfR. destruct HfW as [<-|[<-|[]]], HfR as [<-|[<-|[<-|[]]]]; try reflexivity; cbn in E; discriminate.
+    - intros fR HfR _ Hno. cbn [In] in HfR. destruct HfR as [<-|[<-|[<-|[]]]].
+      + exfalso. eapply (Hno _ (or_introl eq_refl)); reflexivity.
+      + discriminate.
+      + exfalso. eapply (Hno _ (or_intror (or_introl eq_refl))); reflexivity. }
+  assert (Hc' : schema_compat f10_reader f10_writer).
+  { intros d dW H. destruct d as [|d]; cbn in H; [|destruct d; discriminate]. injection H as <-. eexists. split; [reflexivity|].
+    cbn. split; [reflexivity|]. split; [reflexivity|]. split; [reflexivity|]. split.
+    - intros fW fR HfW HfR _ _ E. cbn [In] in HfW, HfR. destruct HfR as [<-|[<-|[]]], HfW as [<-|[<-|[<-|[]]]]; try reflexivity; cbn in E; discriminate.
+    - intros fR HfR _ Hno. cbn [In] in HfR. exfalso. destruct HfR as [<-|[<-|[]]].
+      + eapply (Hno _ (or_introl eq_refl)); reflexivity.
+      + eapply (Hno _ (or_intror (or_intror (or_introl eq_refl)))); reflexivity. }
+  split; [vm_compute; reflexivity|]. split; [exact HW|]. split; [vm_compute; reflexivity|]. split; [exact HR|].
+  split; [vm_compute; reflexivity|]. split; [exact Hc|]. split; [exact Hc'|]. split; [vm_compute; reflexivity|].
+  intros c rest Hb.
+  destruct (gen_encode f10_writer 0 (VList [VNat 1; VNat 3])) as [cs|] eqn:E; [|vm_compute in E; discriminate]. vm_compute in E. injection E as <-.
+  pose proof (compat_roundtrip_closed c f10_writer f10_reader 0 (VList [VNat 1; VNat 3]) _ rest eq_refl HW eq_refl HR eq_refl Hc eq_refl eq_refl) as H.
+  change (migrate f10_writer f10_reader 0 (VList [VNat 1; VNat 3])) with (Some (VList [VNat 1; VNone; VNat 3])) in H. cbv iota in H.
+  exact (H Hb).
 Qed.
